@@ -581,6 +581,9 @@ impl<Tx: Debug + ProstMessage + Default, Rx: Debug + ProstMessage + Default> Cha
             // until the peer disconnects.
             if message_len < delimiter_size() {
                 self.front_buf.consume(delimiter_size());
+                // room was freed: read again even if interest had been
+                // dropped because the buffer was full
+                self.interest.insert(Ready::READABLE);
                 return Err(ChannelError::MessageLengthUnderDelimiter {
                     message_len,
                     delimiter_size: delimiter_size(),
@@ -619,6 +622,11 @@ impl<Tx: Debug + ProstMessage + Default, Rx: Debug + ProstMessage + Default> Cha
                 // and block every message behind it
                 let decoded = Rx::decode(&buffer[delimiter_size()..message_len]);
                 let consumed = self.front_buf.consume(message_len);
+                if decoded.is_err() {
+                    // room was freed: read again even if interest had been
+                    // dropped because the buffer was full
+                    self.interest.insert(Ready::READABLE);
+                }
                 let message = decoded.map_err(ChannelError::InvalidProtobufMessage)?;
                 // The whole frame (delimiter + payload) is consumed exactly:
                 // pair-assert that consume advanced by message_len and the data
